@@ -235,6 +235,12 @@ intercept('vph/vp.IteU32')(_ite_int(32))
 intercept('vph/vp.IteInt')(_ite_int(64))
 
 
+@intercept('vph/vp.IteF64')
+def vp_itef64(ex, st, fr, ins, args):
+    c, a, b = args
+    return ex.ite(c, a, b)
+
+
 @intercept('vph/vp.IteF32')
 def vp_itef32(ex, st, fr, ins, args):
     c, a, b = args
